@@ -64,7 +64,7 @@ func c14Process(c *vk.Ctx, r *rand.Rand) bool {
 			c.Progress("C14 process format=%s udptimeout=%v", format, T)
 			// two datagrams 0.6 T apart: the second one finds the association of the first
 			var srcs []string
-			var last, sentAt time.Time
+			var last, sentAt, firstSent time.Time
 			for i := 0; i < 2; i++ {
 				id := nextID(c.Batch)
 				sentAt = time.Now() // the server cannot have handled the datagram before this
@@ -78,12 +78,13 @@ func c14Process(c *vk.Ctx, r *rand.Rand) bool {
 				srcs = append(srcs, g.From)
 				cl.waitReply(k, id|1<<56, udpB)
 				if i == 0 {
+					firstSent = sentAt
 					time.Sleep(T * 6 / 10)
 				}
 			}
-			late := time.Since(last) // how long the harness took to get here after the last datagram
 			if srcs[0] != srcs[1] {
-				if late > T/4 {
+				// the first datagram was handled no earlier than firstSent, the second no later than last
+				if last.Sub(firstSent) >= T {
 					c.Inconclusive("process phase: the harness was stalled between two datagrams")
 				} else {
 					c.Violation("C14/process/association-ended-before-the-configured-timeout", map[string]any{"format": format, "udptimeout": T.String(), "outbound_first": srcs[0], "outbound_second_datagram_sent_0.6_timeouts_later": srcs[1]})
